@@ -1,12 +1,13 @@
 #!/bin/bash
-# Usage: confirm_seeded.sh <ID>   (scratch worktree /tmp/wt_<ID>, outputs /tmp/seed_<ID>)
-# Confirms: demo fails with the change, passes without; prints patch stats.
+# Usage: confirm_seeded.sh <ID> [prefix]   (scratch worktree /tmp/wt<prefix>_<ID>, outputs /tmp/seed<prefix>_<ID>)
+# Confirms: demo fails with the change, passes without; (re)writes patch.diff.
+# (uses git apply -R / git apply, not git stash: the stash is shared between worktrees)
 ID=$1; PRE=${2:-}; WT=/tmp/wt${PRE}_$ID; OUT=/tmp/seed${PRE}_$ID
 cd $WT || exit 2
+git diff > $OUT/patch.diff
 echo "== patch stat"; git diff --stat | tail -3
 export PYTHONPATH=$WT NUMBA_CACHE_DIR=$OUT/numba_cache
 echo "== demo WITH change"; timeout 900 /venv/bin/python $OUT/demo.py 2>&1 | grep -v Warn | tail -4; echo "exit=${PIPESTATUS[0]}"
-git stash -q
+git apply -R $OUT/patch.diff || exit 2
 echo "== demo WITHOUT change"; timeout 900 /venv/bin/python $OUT/demo.py 2>&1 | grep -v Warn | tail -3; echo "exit=${PIPESTATUS[0]}"
-git stash pop -q
-git diff > $OUT/patch.diff
+git apply $OUT/patch.diff
